@@ -85,3 +85,35 @@ def heading_message(sid=77):
     """A decoded heading message object suitable for client.send()."""
     dec = NMEA2000Decoder()
     return dec.decode_tcp(wire.ebyte_packet(wire.can_id(2, HEADING_PGN, 1, 255), heading_data(sid)))
+
+
+GNSS_HEX = ("E7953D0073D629C0D90473DBC9E505807D02285FD610F69B506C050000000013FC086F00BE00DDF2FFFF00FFFFFFFF")
+
+
+def gnss_message():
+    """129029 GNSS Position Data: 43 bytes -> 7 fast-packet frames."""
+    return NMEA2000Decoder().decode_actisense_string("A000000.000 00FF3 1F805 " + GNSS_HEX)
+
+
+def iso_request_message():
+    """59904 ISO Request: one frame with 3 data bytes."""
+    return NMEA2000Decoder().decode_tcp(wire.ebyte_packet(wire.can_id(6, 59904, 7, 255), bytes.fromhex("00ee00")))
+
+
+def fast2_message():
+    """130578 Vessel Speed Components: 12 bytes -> 2 fast-packet frames."""
+    return NMEA2000Decoder().decode_actisense_string("A000000.000 09FF2 1FE12 " + "0100020003000400050006 00".replace(" ", ""))
+
+
+def bad_messages():
+    m1 = heading_message(1)
+    m1.fields = [f for f in m1.fields if f.id != "deviation"]          # missing field
+    m2 = heading_message(2)
+    for f in m2.fields:
+        if f.id == "heading":
+            f.value = 1000.0                                          # far out of range
+            f.raw_value = 1000.0
+    m3 = heading_message(3)
+    m3.PGN = 65000                                                    # no such definition
+    m3.id = "noSuchPgn"
+    return {"missing_field": m1, "out_of_range": m2, "unknown_pgn": m3}
